@@ -1,5 +1,6 @@
 import Ln.Basic
 import Ln.Commit
+import Ln.Strip
 import Bd.Valid
 namespace LnDrv
 open Ln
@@ -18,6 +19,9 @@ partial def loop (h : IO.FS.Stream) : IO Unit := do
   | ["lines", b] =>
     let bs := parseBytes b
     IO.println s!"{countLines bs} {(splitLines bs).length} {(splitLines bs).map (·.length)}"
+  | ["strip", b] =>
+    let r := stripWS (parseBytes b)
+    IO.println s!"{r} {countLines r}"
   | "stats" :: es =>
     let edits := es.filterMap fun e =>
       match e.splitOn ":" with
